@@ -12,6 +12,8 @@
 (* packet), "CLAIM", and PGNs not in the database; content is a token.      *)
 (*   input = [k |-> "single", pgn, src, tok]                               *)
 (*         | [k |-> "frame", src, seq, fc, len, chunk]    (PGN "F")        *)
+(*         | [k |-> "whole", src, tok]   (PGN "F" delivered pre-assembled  *)
+(*            by a format that carries whole messages: no reassembly)      *)
 (*         | [k |-> "claim", src, name]                                    *)
 (*         | [k |-> "unknown", src] | [k |-> "bad"]  (raises, no effect)   *)
 (*         | [k |-> "nomatch", src]  (a frame of PGN "Q" whose payload     *)
@@ -70,6 +72,10 @@ Step(cfg, st, in, windowOpen) ==
          IF EarlyDrop(cfg, st, in.pgn, in.src, windowOpen) \/ LateDrop(cfg, in.pgn)
          THEN [st |-> st, out |-> NoMsg, err |-> FALSE]
          ELSE [st |-> st, out |-> Msg(in.pgn, in.src, in.tok, IdentOf(st, in.src)), err |-> FALSE]
+    [] in.k = "whole" ->
+         IF EarlyDrop(cfg, st, "F", in.src, windowOpen) \/ LateDrop(cfg, "F")
+         THEN [st |-> st, out |-> NoMsg, err |-> FALSE]
+         ELSE [st |-> st, out |-> Msg("F", in.src, in.tok, IdentOf(st, in.src)), err |-> FALSE]
     [] in.k = "frame" ->
          IF EarlyDrop(cfg, st, "F", in.src, windowOpen) THEN [st |-> st, out |-> NoMsg, err |-> FALSE]
          ELSE LET r == Recv(BufOf(st, in.src), [seq |-> in.seq, fc |-> in.fc, len |-> in.len, chunk |-> in.chunk])
